@@ -71,6 +71,13 @@ theorem cmp_matches_id_order (t : SigTable) (a b : Nat × Nat) (i j : Nat)
     (ha : toId t a.1 a.2 = some i) (hb : toId t b.1 b.2 = some j) : cmp t a b = compare i j := by
   simp [cmp, ha, hb]
 
+/-- `partial_cmp` is defined exactly when both descriptors are recognised, and then agrees with `cmp` -/
+theorem partial_cmp_consistent (t : SigTable) (a b : Nat × Nat) :
+    (partialCmp t a b = none ↔ (isValid t a.1 a.2 && isValid t b.1 b.2) = false) ∧
+    (∀ o, partialCmp t a b = some o → cmp t a b = o) := by
+  unfold partialCmp cmp isValid
+  cases toId t a.1 a.2 <;> cases toId t b.1 b.2 <;> simp
+
 /-- every recognised descriptor sorts before every unrecognised one -/
 theorem recognised_before_unrecognised (t : SigTable) (a b : Nat × Nat) (i : Nat)
     (ha : toId t a.1 a.2 = some i) (hb : toId t b.1 b.2 = none) :
